@@ -43,6 +43,9 @@ type vfC15Case struct {
 	// Opt: one execution option of the Query (none | serial | spec | retry | ctx | ctxto | observer | trace | ts |
 	// payload | release); none of them changes what the property demands of the iteration.
 	Opt string `json:"opt"`
+	// Conc > 1: that many goroutines iterate the SAME prepared statement at the same time, each with its own bound
+	// key; the node releases the answers of a page level together.
+	Conc int `json:"conc"`
 }
 
 // vfC15Req is a QUERY / EXECUTE body decoded field by field in the order of native_protocol_v4.spec section 4.1.4
@@ -139,6 +142,8 @@ type vfC15Result struct {
 	Run     int      `json:"run"` // trace id of this execution: job*8 + exec
 	Job     int      `json:"job"`
 	Exec    int      `json:"exec"`
+	Member  int      `json:"member"`  // concurrent cases: which of the goroutines (1-based), else 0
+	Changed int      `json:"changed"` // rows the caller kept (maps) whose content was different when re-read after the end
 	Stop    int      `json:"stop"`
 	QTok    int      `json:"qtok"` // paging state found in the caller's Query afterwards (-2: released, not looked at)
 	ID      int      `json:"id"`
@@ -153,7 +158,12 @@ type vfC15Result struct {
 	Resps   int      `json:"resps"`
 }
 
-var vfC15Cols = []vfCol{{"p", vfTInt}, {"i", vfTInt}, {"s", vfTVarchar}}
+var vfC15Cols = []vfCol{{"p", vfTInt}, {"i", vfTInt}, {"s", vfTVarchar}, {"b", vfTBlob}}
+
+// vfC15Blob is the content of the blob column of row (p, i): different in every row, of different lengths
+func vfC15Blob(p, i int) []byte {
+	return []byte(fmt.Sprintf("B%d.%d%s", p, i, strings.Repeat("x", (p*3+i)%5)))
+}
 var vfC15Cons = []Consistency{Quorum, One, LocalQuorum}
 
 const vfC15MaxReqs = 40 // the node fails every request beyond this one (runaway guard)
@@ -163,6 +173,8 @@ const vfC15MaxRows = 64 // the consumer gives up beyond this many rows (runaway 
 type vfC15Run struct {
 	c       vfC15Case
 	exec    int // 1-based execution of the plan
+	member  int // concurrent cases: 1-based goroutine number (0 otherwise)
+	grp     *vfC15Group
 	id      int // trace id
 	tr      *vfTracer
 	mu      sync.Mutex
@@ -175,6 +187,57 @@ type vfC15Run struct {
 	lpause  []time.Duration // consumer: pause between being handed a row and logging it
 	ended   int32
 	pending sync.WaitGroup
+}
+
+// vfC15Group: the iterations the node is serving at the moment for one job - one, or the Conc concurrent ones.
+type vfC15Group struct {
+	job     int
+	mu      sync.Mutex
+	members []*vfC15Run       // index member-1 (single: one entry)
+	waves   map[int][]func()  // concurrent: held answers per page level
+}
+
+func (g *vfC15Group) member(m int) *vfC15Run {
+	g.mu.Lock()
+	defer g.mu.Unlock()
+	if m < 0 || m >= len(g.members) {
+		return nil
+	}
+	return g.members[m]
+}
+
+// hold keeps the answer to a request for page `level` until every member that is still iterating has asked for
+// that level (or a moment has passed), then lets all of them go at once.
+func (g *vfC15Group) hold(level int, answer func()) {
+	g.mu.Lock()
+	g.waves[level] = append(g.waves[level], answer)
+	alive := 0
+	for _, r := range g.members {
+		if r != nil && atomic.LoadInt32(&r.ended) == 0 {
+			alive++
+		}
+	}
+	n := len(g.waves[level])
+	var flush []func()
+	if n >= alive {
+		flush = g.waves[level]
+		g.waves[level] = nil
+	}
+	g.mu.Unlock()
+	if flush == nil && n == 1 {
+		time.AfterFunc(20*time.Millisecond, func() {
+			g.mu.Lock()
+			fl := g.waves[level]
+			g.waves[level] = nil
+			g.mu.Unlock()
+			for _, a := range fl {
+				go a()
+			}
+		})
+	}
+	for _, a := range flush {
+		go a()
+	}
 }
 
 type vfC15Worker struct {
@@ -215,17 +278,25 @@ func vfC15RunOf(text string) int {
 // Paging states are "r<job>:e<exec>:<k>": job and execution in which the node issued them (exec 0: made
 // up by the caller for PageState), k = token. vfC15Tok returns (exec, k); k = 0 for no state, -1 unparsable.
 func vfC15Tok(job int, b []byte) (int, int) {
-	if len(b) == 0 {
-		return 0, 0
-	}
-	var j, e, k int
-	if n, err := fmt.Sscanf(string(b), "r%d:e%d:%d", &j, &e, &k); n != 3 || err != nil || j != job || k < 1 {
-		return 0, -1
-	}
+	e, k, _ := vfC15Tok3(job, b)
 	return e, k
 }
 
-func vfC15State(job, exec, tok int) []byte { return []byte(fmt.Sprintf("r%d:e%d:%d", job, exec, tok)) }
+// vfC15Tok3 also returns the member the state was issued to.
+func vfC15Tok3(job int, b []byte) (exec, k, member int) {
+	if len(b) == 0 {
+		return 0, 0, 0
+	}
+	var j int
+	if n, err := fmt.Sscanf(string(b), "r%d:e%d:%d:m%d", &j, &exec, &k, &member); n != 4 || err != nil || j != job || k < 1 {
+		return 0, -1, 0
+	}
+	return exec, k, member
+}
+
+func vfC15State(job, exec, tok, member int) []byte {
+	return []byte(fmt.Sprintf("r%d:e%d:%d:m%d", job, exec, tok, member))
+}
 
 func (w *vfC15Worker) handle(nc *vfNodeConn, f *vfFrame, q *vfRequest) bool {
 	switch f.Op {
@@ -239,15 +310,30 @@ func (w *vfC15Worker) handle(nc *vfNodeConn, f *vfFrame, q *vfRequest) bool {
 		if run < 0 {
 			return false
 		}
-		r, _ := w.cur.Load().(*vfC15Run)
-		if r == nil || r.c.Run != run || atomic.LoadInt32(&r.ended) != 0 {
+		var r *vfC15Run
+		if g, _ := w.cur.Load().(*vfC15Group); g != nil && g.job == run {
+			m := 0
+			if len(g.members) > 1 {
+				// concurrent iterations of one prepared statement are told apart by their bound key
+				m = -1
+				if v := strings.SplitN(d.Vals, ",", 2)[0]; len(v) == 8 {
+					if key, err := strconv.ParseInt(v, 16, 64); err == nil {
+						m = int(key) - run*16 - 1
+					}
+				}
+			}
+			r = g.member(m)
+		}
+		if r == nil || atomic.LoadInt32(&r.ended) != 0 {
 			w.countStale(run)
 			nc.Reply(f, vfOpError, vfErrorBody(0x0000, "vf-stale request of a finished iteration", nil))
 			return true
 		}
-		texec, tok := vfC15Tok(run, d.State)
+		texec, tok, tmember := vfC15Tok3(run, d.State)
 		if d.Err != "" || (d.Flags&0x08 != 0 && len(d.State) == 0) {
 			tok = -1 // a request a server following the protocol specification cannot decode (or an empty state)
+		} else if tok > 0 && tmember != r.member {
+			tok = -2 // a paging state this node issued - to ANOTHER of the concurrent iterations
 		}
 		if d.Err == "" && tok > 0 && texec != 0 && texec != r.exec {
 			// a paging state the node issued during an EARLIER execution of this Query value: a prefetch of an
@@ -293,6 +379,14 @@ func (r *vfC15Run) onRequest(nc *vfNodeConn, f *vfFrame, q *vfC15Req, text strin
 	var d time.Duration
 	if k-1 < len(r.ndelay) {
 		d = r.ndelay[k-1]
+	}
+	if r.grp != nil && len(r.grp.members) > 1 {
+		r.pending.Add(1)
+		r.grp.hold(tok+1, func() {
+			defer r.pending.Done()
+			r.serve(nc, f, q, tok, k, true)
+		})
+		return
 	}
 	if d == 0 {
 		r.serve(nc, f, q, tok, k, true)
@@ -342,11 +436,11 @@ func (r *vfC15Run) serve(nc *vfNodeConn, f *vfFrame, q *vfC15Req, tok, k int, lo
 	var ps []byte
 	if page < len(c.Pages) {
 		next = page
-		ps = vfC15State(c.Run, r.exec, page)
+		ps = vfC15State(c.Run, r.exec, page, r.member)
 	}
 	cells := make([][][]byte, 0, c.Pages[page-1])
 	for i := 1; i <= c.Pages[page-1]; i++ {
-		cells = append(cells, [][]byte{vfCellInt(int32(page)), vfCellInt(int32(i)), vfCellText(fmt.Sprintf("r%d.%d", page, i))})
+		cells = append(cells, [][]byte{vfCellInt(int32(page)), vfCellInt(int32(i)), vfCellText(fmt.Sprintf("r%d.%d", page, i)), vfC15Blob(page, i)})
 	}
 	resp(page, 1, next)
 	body := vfRowsBody(f.Version, "ks", "t", vfC15Cols, cells, ps, q.Flags&0x02 != 0)
@@ -431,6 +525,51 @@ func vfC15Sched(c *vfC15Case, seed int64) (nd, cp, lp []time.Duration) {
 	return
 }
 
+func vfC15Stmt(c *vfC15Case, member int) (stmt string, vals []interface{}) {
+	switch c.Prep {
+	case "query": // not a DML keyword: sent as QUERY, never prepared, no values
+		stmt = fmt.Sprintf("LIST p, i, s, b FROM ks.t /*run=%d*/", c.Run)
+	case "exec0":
+		stmt = fmt.Sprintf("SELECT p, i, s, b FROM ks.t /*run=%d*/", c.Run)
+	default:
+		stmt = fmt.Sprintf("SELECT p, i, s, b FROM ks.t WHERE a = ? AND b = ? /*run=%d*/", c.Run)
+		vals = []interface{}{c.Run*16 + member, 7}
+	}
+	return
+}
+
+// runConc: Conc goroutines iterate the same prepared statement (one statement text, one cache entry), each with
+// its own bound key, at the same time; every one of them is a trace and a result of its own.
+func (w *vfC15Worker) runConc(c vfC15Case, seed int64) (results []vfC15Result, traces [][]map[string]interface{}) {
+	g := &vfC15Group{job: c.Run, members: make([]*vfC15Run, c.Conc), waves: map[int][]func(){}}
+	for m := 1; m <= c.Conc; m++ {
+		g.members[m-1] = &vfC15Run{c: c, exec: 1, member: m, id: c.Run*8 + m - 1, tr: vfNewTracer(), grp: g}
+	}
+	w.cur.Store(g)
+	s := w.sess[2+c.Skip&1]
+	results = make([]vfC15Result, c.Conc)
+	traces = make([][]map[string]interface{}, c.Conc)
+	var wg sync.WaitGroup
+	for m := 1; m <= c.Conc; m++ {
+		wg.Add(1)
+		go func(m int) {
+			defer wg.Done()
+			stmt, vals := vfC15Stmt(&c, m)
+			q := s.Query(stmt, vals...).PageSize(c.Size).Prefetch(float64(c.Q) / 4).Consistency(vfC15Cons[c.Run%3])
+			if c.Mode == "manual" {
+				var st []byte
+				if c.Start > 0 {
+					st = vfC15State(c.Run, 0, c.Start, m)
+				}
+				q = q.PageState(st)
+			}
+			results[m-1], traces[m-1] = w.runExec(c, 1, q, 0, seed, g.members[m-1])
+		}(m)
+	}
+	wg.Wait()
+	return
+}
+
 // runCase executes the plan of a case: ONE Query value, q.Iter() once per plan entry. Each execution is
 // recorded as a trace and a result of its own.
 func (w *vfC15Worker) runCase(c vfC15Case, seed int64) (results []vfC15Result, traces [][]map[string]interface{}) {
@@ -438,20 +577,13 @@ func (w *vfC15Worker) runCase(c vfC15Case, seed int64) (results []vfC15Result, t
 		c.Plan = []int{-1}
 	}
 	s := w.sess[c.Skip&1]
-	var stmt string
-	var vals []interface{}
-	switch c.Prep {
-	case "query": // not a DML keyword: sent as QUERY, never prepared, no values
-		stmt = fmt.Sprintf("LIST p, i, s FROM ks.t /*run=%d*/", c.Run)
-	case "exec0":
-		stmt = fmt.Sprintf("SELECT p, i, s FROM ks.t /*run=%d*/", c.Run)
-	default:
-		stmt = fmt.Sprintf("SELECT p, i, s FROM ks.t WHERE a = ? AND b = ? /*run=%d*/", c.Run)
-		vals = []interface{}{c.Run, 7}
+	if c.Conc > 1 {
+		return w.runConc(c, seed)
 	}
+	stmt, vals := vfC15Stmt(&c, 0)
 	var callerState []byte
 	if c.Mode == "manual" && c.Start > 0 {
-		callerState = vfC15State(c.Run, 0, c.Start)
+		callerState = vfC15State(c.Run, 0, c.Start, 0)
 	}
 	q := s.Query(stmt, vals...).PageSize(c.Size).Prefetch(float64(c.Q) / 4).Consistency(vfC15Cons[c.Run%3])
 	if c.Mode == "manual" {
@@ -501,7 +633,7 @@ func (w *vfC15Worker) runCase(c vfC15Case, seed int64) (results []vfC15Result, t
 		if c.Opt == "release" && len(c.Plan) == 1 {
 			rel = 2
 		}
-		res, evs := w.runExec(c, e, q, rel, seed)
+		res, evs := w.runExec(c, e, q, rel, seed, nil)
 		results = append(results, res)
 		traces = append(traces, evs)
 		if strings.HasPrefix(res.Env, "hang") {
@@ -511,18 +643,20 @@ func (w *vfC15Worker) runCase(c vfC15Case, seed int64) (results []vfC15Result, t
 	return
 }
 
-func (w *vfC15Worker) runExec(c vfC15Case, exec int, q *Query, rel int, seed int64) (vfC15Result, []map[string]interface{}) {
+func (w *vfC15Worker) runExec(c vfC15Case, exec int, q *Query, rel int, seed int64, r *vfC15Run) (vfC15Result, []map[string]interface{}) {
 	stop := c.Plan[exec-1]
 	if c.Kind == "SliceMap" {
 		stop = -1 // one call: it cannot stop early
 	}
-	r := &vfC15Run{c: c, exec: exec, id: c.Run*8 + exec, tr: vfNewTracer()}
-	r.ndelay, r.cpause, r.lpause = vfC15Sched(&c, seed+int64(exec)*131)
-	res := vfC15Result{Run: r.id, Job: c.Run, Exec: exec, Stop: stop, QTok: -2, ID: c.ID, Reqs: []int{}, ReqF: []string{}, Rows: [][2]int{}}
-	w.cur.Store(r)
+	if r == nil {
+		r = &vfC15Run{c: c, exec: exec, id: c.Run*8 + exec, tr: vfNewTracer()}
+		r.ndelay, r.cpause, r.lpause = vfC15Sched(&c, seed+int64(exec)*131)
+		w.cur.Store(&vfC15Group{job: c.Run, members: []*vfC15Run{r}})
+	}
+	res := vfC15Result{Run: r.id, Job: c.Run, Exec: exec, Member: r.member, Stop: stop, QTok: -2, ID: c.ID, Reqs: []int{}, ReqF: []string{}, Rows: [][2]int{}}
 	r.tr.Emit("begin", "run", r.id, "id", c.ID, "pages", c.Pages, "q", c.Q, "kind", c.Kind, "fail", c.Fail, "mode", c.Mode,
 		"start", c.Start, "prep", c.Prep, "skip", c.Skip, "size", c.Size, "sched", c.Sched, "exec", exec, "stop", stop,
-		"rebind", c.Rebind, "opt", c.Opt)
+		"rebind", c.Rebind, "opt", c.Opt, "member", r.member)
 
 	rows := [][2]int{}
 	row := func(p, i int, sv string) {
@@ -638,7 +772,11 @@ func (w *vfC15Worker) runExec(c vfC15Case, exec int, q *Query, rel int, seed int
 	}
 	exposed := 0
 	if iter != nil {
-		_, exposed = vfC15Tok(c.Run, iter.PageState())
+		var em int
+		_, exposed, em = vfC15Tok3(c.Run, iter.PageState())
+		if exposed > 0 && em != r.member {
+			exposed = -2 // the state of another of the concurrent iterations
+		}
 	}
 	// in-package look at what the execution left in the caller's Query
 	qtok := -2
